@@ -10,7 +10,8 @@ LEVEL = ("Mechanism level (writer/reader agreement): all three methods of the mu
          "impl routes serialize / deserialize / to_writer through its own get_format(); the envelope is written with "
          "to_vec_named and read with from_slice, and the versions-only reader decodes `Versions`; inner data is written "
          "and read with the rkyv helpers and every type in its field closure has Archive + CheckBytes impls; the "
-         "avm-interface conversions copy every field. Equality of decoded and encoded values is not decided.")
+         "avm-interface conversions copy every field. Equality of decoded and encoded values is not decided."
+         " Added: the Serialize table of JValue with numbers delegated to Number::serialize (the bytes that are encoded).")
 
 
 # fields excluded from the archive by `#[with(rkyv::with::Skip)]` (not serialized, rebuilt lazily): (type, field) -> reason
